@@ -271,6 +271,7 @@ func (env *Env) buildReflect(idx int, fs FuncSpec, opts []am.Arg) (*am.Func, err
 			if outPtr && fs.NilOut {
 				res = append(res, reflect.Zero(outT[0]))
 				for _, l := range fs.Out {
+					env.tok() // a token number is consumed all the same, so that numbering does not depend on it
 					if IsIface(l.Type) {
 						ex.Outs = append(ex.Outs, -1) // nil interface
 					} else {
